@@ -22,11 +22,12 @@ Theorem C19_copy_logs : forall src bb p,
 Proof. exact copy_logs_faithful. Qed.
 Print Assumptions C19_copy_logs.
 
-(* Every cancellation point and every injected GetLog/StoreLogs failure: the
-   destination holds a prefix of the source (same first index when non-empty),
-   built by accepted batches; Ok is returned only with the complete copy; the
-   loop never runs out of fuel; Canceled is returned only if the context was
-   cancelled. *)
+(* Every cancellation point and every injected failure (GetLog, StoreLogs, and
+   the source's FirstIndex / LastIndex, e.g. a source WAL that is already
+   closed): the destination holds a prefix of the source (same first index
+   when non-empty), built by accepted batches; Ok is returned only with the
+   complete copy; the loop never runs out of fuel; each error kind is returned
+   only if its cause was present. *)
 Theorem C19_cancel_prefix : forall src bb ev,
   wf_store src ->
   let r := copy_logs ev bb src empty_store in
@@ -34,17 +35,32 @@ Theorem C19_cancel_prefix : forall src bb ev,
   (ls_ents (r_dst r) <> [] -> ls_first (r_dst r) = ls_first src) /\
   replay empty_store (r_batches r) = Some (r_dst r) /\
   (r_res r = COk -> same_log (r_dst r) src) /\
-  r_res r <> COutOfFuel /\ r_res r <> CErrFirst /\
+  r_res r <> COutOfFuel /\
+  (first_fail ev = false -> r_res r <> CErrFirst) /\
+  (last_fail ev = false -> r_res r <> CErrLast) /\
   (cancel_at ev = None -> r_res r <> CCanceled).
 Proof. exact copy_logs_prefix. Qed.
 Print Assumptions C19_cancel_prefix.
+
+(* FirstIndex / LastIndex of the source failing (any source, any destination):
+   that error is returned, the destination is untouched, no GetLog is issued,
+   and the progress channel is closed like on every other return path *)
+Theorem C19_index_fault : forall src dst bb ev,
+  let r := copy_logs ev bb src dst in
+  (first_fail ev = true -> r_res r = CErrFirst /\ r_dst r = dst /\ r_batches r = [] /\ r_gets r = 0) /\
+  (first_fail ev = false -> last_fail ev = true ->
+     r_res r = CErrLast /\ r_dst r = dst /\ r_batches r = [] /\ r_gets r = 0) /\
+  r_closed r = has_progress ev.
+Proof. exact copy_logs_index_fault. Qed.
+Print Assumptions C19_index_fault.
 
 (* ctx.Err() turning non-nil before the k-th loop check: Canceled (the
    context's error) after exactly k GetLog calls when k < number of entries,
    a complete copy otherwise *)
 Theorem C19_cancel_point : forall src bb p k,
   wf_store src ->
-  let ev := {| cancel_at := Some k; get_fail := None; store_fail := None; has_progress := p |} in
+  let ev := {| cancel_at := Some k; get_fail := None; store_fail := None;
+              first_fail := false; last_fail := false; has_progress := p |} in
   let r := copy_logs ev bb src empty_store in
   ((k < length (ls_ents src))%nat -> r_res r = CCanceled /\ r_gets r = N.of_nat k) /\
   ((length (ls_ents src) <= k)%nat -> r_res r = COk /\ same_log (r_dst r) src).
@@ -102,7 +118,8 @@ Example C19_ex_negative :
 Proof. vm_compute. reflexivity. Qed.
 (* cancellation before the 3rd check with batches of 2: the first batch only *)
 Example C19_ex_cancel :
-  let r := copy_logs {| cancel_at := Some 3%nat; get_fail := None; store_fail := None; has_progress := true |}
+  let r := copy_logs {| cancel_at := Some 3%nat; get_fail := None; store_fail := None;
+                        first_fail := false; last_fail := false; has_progress := true |}
                      67 ex_src empty_store in
   r_res r = CCanceled /\ ls_ents (r_dst r) = firstn 2 (ls_ents ex_src) /\ r_closed r = true.
 Proof. vm_compute. auto. Qed.
@@ -110,6 +127,13 @@ Proof. vm_compute. auto. Qed.
 Example C19_ex_empty :
   let r := copy_logs (no_faults true) 100 empty_store empty_store in
   r_res r = COk /\ r_gets r = 0 /\ r_batches r = [] /\ r_closed r = true.
+Proof. vm_compute. auto. Qed.
+(* a source whose LastIndex fails: error, nothing copied, channel closed *)
+Example C19_ex_last_fails :
+  let r := copy_logs {| cancel_at := None; get_fail := None; store_fail := None;
+                        first_fail := false; last_fail := true; has_progress := true |}
+                     67 ex_src empty_store in
+  r_res r = CErrLast /\ ls_ents (r_dst r) = [] /\ r_gets r = 0 /\ r_closed r = true.
 Proof. vm_compute. auto. Qed.
 (* without the well-formedness guard the statement would be false: an entry at
    index 0 alone is taken for an empty log *)
